@@ -53,9 +53,10 @@ func allowedOrigin(p *core.Program, v ssa.Value, ri *core.ResultInfo, depth int,
 		return false, "constant " + x.String() + " used as a decision"
 	case *ssa.BinOp:
 		if x.Op == token.EQL {
-			if k, isK := core.IntConst(x.Y); isK && k == ri.MemberVals["IsMember"] && core.IsNamed(x.X.Type(), checkgroupPkg, "Membership") {
+			_, cx, cy, _ := core.BinCmp(x)
+			if k, isK := core.IntConst(cy); isK && k == ri.MemberVals["IsMember"] && core.IsNamed(cx.Type(), checkgroupPkg, "Membership") {
 				// Membership of an engine Result
-				return membershipFromEngine(x.X)
+				return membershipFromEngine(cx)
 			}
 		}
 		return false, "decision computed by " + x.String()
@@ -495,7 +496,11 @@ func r084(c *Ctx, ri *core.ResultInfo) {
 						if s2, ok := r2.(*ssa.Store); ok {
 							if bo, ok := s2.Val.(*ssa.BinOp); ok {
 								var res ssa.Value
-								switch m := bo.X.(type) {
+								_, cmpX, _, _ := core.BinCmp(bo)
+								if cmpX == nil {
+									cmpX = bo.X
+								}
+								switch m := cmpX.(type) {
 								case *ssa.Field:
 									res = m.X
 								case *ssa.UnOp:
